@@ -213,6 +213,10 @@ class C02(PropDef):
 
     def gen(self, tier, rng):
         cases = ["LOAD 1 -", "LOAD 1 " + hx(u32(16) + u32(0) + u32(0) + u32(8))]
+        # declared sizes below the header: only max(4, declared) bytes are readable
+        for t in range(0, 8):
+            for w in (0, 8, 0xFFFFFFFF):
+                cases.append("LOAD 0 " + hx((u32(t) + u32(w))[:max(4, t)]))
         top = 72 if tier == "quick" else 136
         for t in list(range(0, top + 1)) + list(range(top + 8, 8 * top, 8)):
             tails = self.tails(rng) if t % 8 == 0 else [(0, 8), (1, 8)]
@@ -229,6 +233,13 @@ class C02(PropDef):
             cases.append("LOAD 0 " + hx(self.region(t, rng.getrandbits(32), tail, rng)))
         for t in (1 << 20, (1 << 20) - 8, (1 << 20) - 1):
             cases.append("LOAD 0 " + hx(self.region(t, 0, (0, 8), rng)))
+        # declared sizes up to 4 GiB: the harness really maps the region (lazily), the model side is the closed form of
+        # `load` (theorem C02.load_eq_closed); around 2^31 / 2^32 and a few in between
+        for t in (1 << 24, (1 << 28) + 8, (1 << 31) - 8, (1 << 31) - 1, 1 << 31, (1 << 31) + 1, (1 << 31) + 4, (1 << 31) + 8,
+                  0xC0000000, 0xC0000002, 0xFFFFFFF0, 0xFFFFFFF8, 0xFFFFFFF9, 0xFFFFFFFF):
+            for tail in ((0, 8), (1, 8), (0, 16)):
+                for reserved in (0, 8, 0xFFFFFFFF):
+                    cases.append("LOADBIG %d %d %s" % (t, reserved, hx(u32(tail[0]) + u32(tail[1]))))
         return cases
 
 
@@ -324,7 +335,16 @@ class C03(PropDef):
                     o = rng.randrange(0, len(area) // 8) * 8
                     area[o + 4:o + 8] = u32(rng.choice([0, 4, 7, len(area) - o + 1, len(area) - o + 8, rng.getrandbits(32)]))
                 cases.append("WALK %s %s %s" % (kind, hx(bytes(area)), rand_ops(rng, rng.randrange(5, 40))))
-        return cases
+        # the MODULE iterator (part of the property): regions with modules, also behind tags of type 0 in the middle
+        return cases + _mbi.gen_interior_end(rng) + _mbi.gen_wellformed(rng, 20 if tier == "quick" else 200)
+
+    def oracle(self, case, impl, config):
+        if case.startswith("SWEEP"):
+            try:
+                return _oracle.c04_oracle(case, impl)
+            except Exception as e:
+                return "oracle could not parse the observation: %r" % (e,)
+        return None
 
 
 # =========================================================================== C20
@@ -636,7 +656,7 @@ class C05(SweepProp):
 
     def gen(self, tier, rng):
         return (_mbi.gen_sizes(rng, 1 if tier == "quick" else 4) + _mbi.gen_fb(rng) + _mbi.gen_strings(rng, 2, 40) +
-                _mbi.gen_wellformed(rng, 30) + _mbi.gen_scale(rng) + _mbi.gen_inforeq_sizes(rng))
+                _mbi.gen_wellformed(rng, 30) + _mbi.gen_scale(rng) + _mbi.gen_inforeq_sizes(rng) + _mbi.gen_elf(rng, "quick"))
 
     def oracle(self, case, impl, config):
         if case.startswith("HSWEEP"):
@@ -658,7 +678,7 @@ class C04(SweepProp):
 
     def gen(self, tier, rng):
         return (_mbi.gen_wellformed(rng, 300 if tier == "quick" else 3000) + _mbi.gen_fb(rng) + _mbi.gen_misc(rng) +
-                _mbi.gen_efi(rng, "quick")[:200] + _mbi.gen_scale(rng))
+                _mbi.gen_efi(rng, "quick")[:200] + _mbi.gen_scale(rng) + _mbi.gen_fb_pairs(rng) + _mbi.gen_interior_end(rng))
 
 
 @register
@@ -674,10 +694,17 @@ class C01(SweepProp):
     def gen(self, tier, rng):
         cases = (_mbi.gen_wellformed(rng, 100 if tier == "quick" else 1000) + _mbi.gen_sizes(rng, 1 if tier == "quick" else 3) +
                  _mbi.gen_strings(rng, 2, 60) + _mbi.gen_efi(rng, tier) + _mbi.gen_elf(rng, tier) + _mbi.gen_fb(rng) + _mbi.gen_misc(rng) +
-                 _mbi.gen_elfname(rng, tier) + _mbi.gen_scale(rng))
+                 _mbi.gen_elfname(rng, tier) + _mbi.gen_scale(rng) + _mbi.gen_fb_pairs(rng) + _mbi.gen_interior_end(rng))
         # second placement: flush against the LOWER guard page for a sample
         extra = [c + " start" for c in cases[:: (7 if tier == "quick" else 2)] if c.startswith("SWEEP")]
-        return cases + extra
+        # a declared total size BELOW the header size: only the declared bytes (at least the size word itself) are readable -
+        # the guard page starts right behind them, so looking at the reserved word or at an "end tag" faults
+        tiny = []
+        for t in range(0, 8):
+            for w in (0, 8, 0xFFFFFFFF):
+                tiny.append("SWEEP " + hx((u32(t) + u32(w))[:max(4, t)]))
+                tiny.append("SWEEP " + hx(u32(t) + u32(w)))
+        return cases + extra + tiny
 
 
 CAST_CODES = ["s0", "s1", "s2", "s3", "s4", "s5", "s6", "d0e1", "d0e2", "d0e3", "d0e4", "d0e8", "d0e24", "d1e1", "d1e3", "d1e4",
@@ -701,6 +728,12 @@ class C15(PropDef):
         cases = ["CAST %s %d" % (c, s) for c in CAST_CODES for s in range(0, top + 1)]
         # the backing slice may be longer than the tag (e.g. the first tag of a buffer holding more): 1..3 extra 8-byte units
         cases += ["CAST %s %d %d" % (c, s, x) for c in CAST_CODES for s in range(8, 49) for x in (1, 2, 3)]
+        # 16-aligned user-defined types: the backing slice starts 16-aligned (its length is made a multiple of 16)
+        for c in ("a16s", "a16d"):
+            for s in range(0, top + 1):
+                occ = (max(s, 8) + 7) // 8 * 8
+                x0 = 0 if occ % 16 == 0 else 1
+                cases += ["CAST %s %d %d" % (c, s, x) for x in (x0, x0 + 2)]
         return cases + _mbi.gen_sizes(rng, 1)
 
     def oracle(self, case, impl, config):
@@ -983,7 +1016,7 @@ class C12(PropDef):
             for _ in range(200):
                 slots = [rng.choice(HDR_SLOTS) for _ in range(rng.randrange(0, 14))]
                 cases.append("HBUILD %d %s" % (arch, ",".join(hdr_op(rng, s) for s in slots) or "-"))
-            for n in list(range(0, 9)) + [63, 64, 255, 256, 257, 1000]:
+            for n in list(range(0, 9)) + [63, 64, 255, 256, 257, 1000, 2036, 2037, 2040, 4096, 10000]:
                 cases.append("HBUILD %d h_inforeq:%s" % (arch, hx(u16(rng.randrange(2)) + rbytes(rng, 4 * n))))
             for s_ in HDR_SLOTS:
                 cases.append("HBUILD %d %s,%s,%s" % (arch, hdr_op(rng, s_), hdr_op(rng, "h_modalign"), hdr_op(rng, s_)))
@@ -1039,7 +1072,8 @@ class C11(HSweepProp):
             "bytes at the specification's offsets. Non-trivial = distinct cases that load.")
 
     def gen(self, tier, rng):
-        return _mbi.gen_headers_wellformed(rng, 300 if tier == "quick" else 3000) + _mbi.gen_headers_scale(rng)
+        return (_mbi.gen_headers_wellformed(rng, 300 if tier == "quick" else 3000) + _mbi.gen_headers_scale(rng) +
+                _mbi.gen_headers_interior_end(rng))
 
 
 @register
@@ -1054,7 +1088,7 @@ class C09(HSweepProp):
 
     def gen(self, tier, rng):
         return (_mbi.gen_headers_adversarial(rng, 300 if tier == "quick" else 3000) + _mbi.gen_headers_wellformed(rng, 50) +
-                _mbi.gen_headers_scale(rng))
+                _mbi.gen_headers_scale(rng) + _mbi.gen_headers_interior_end(rng))
 
 
 @register
